@@ -105,6 +105,8 @@ type FS struct {
 	missOpen int  // Open() of a table that does not exist
 	torn     int  // (crash images) number of files whose contents differ from the live file
 
+	text []string // DB log lines (TextLog)
+
 	// optional hook invoked (without the lock) before every mutating op
 	Hook func(kind string, fd storage.FileDesc)
 }
@@ -353,6 +355,9 @@ func (v *FS) step(kind string, fd storage.FileDesc, n int, mut bool) (Fault, err
 	if v.logOn && (mut || v.logAll) {
 		v.log = append(v.log, e)
 	}
+	if TextLog && mut && kind != OpWrite {
+		v.text = append(v.text, fmt.Sprintf("[%d] -- %s %s-%d", v.ops, kind, e.FType, e.Num))
+	}
 	return Fault{}, nil
 }
 
@@ -384,8 +389,27 @@ func (v *FS) Lock() (storage.Locker, error) {
 // IsLocked reports whether the storage lock is held.
 func (v *FS) IsLocked() bool { v.mu.Lock(); defer v.mu.Unlock(); return v.locked }
 
-// Log implements storage.Storage (discarded).
-func (v *FS) Log(string) {}
+// Log implements storage.Storage. The DB's own log lines are discarded unless
+// TextLog is on (debugging aid: they are then kept, interleaved with the
+// storage operations, and returned by Text).
+func (v *FS) Log(s string) {
+	if !TextLog {
+		return
+	}
+	v.mu.Lock()
+	v.text = append(v.text, fmt.Sprintf("[%d] %s", v.ops, s))
+	v.mu.Unlock()
+}
+
+// TextLog switches the retention of the DB's log lines on (debugging only).
+var TextLog bool
+
+// Text returns the retained log lines.
+func (v *FS) Text() []string {
+	v.mu.Lock()
+	defer v.mu.Unlock()
+	return append([]string(nil), v.text...)
+}
 
 // SetMeta implements storage.Storage.
 func (v *FS) SetMeta(fd storage.FileDesc) error {
